@@ -134,6 +134,37 @@ func scanAllLogs(m *Merged, label string) []LogRecord {
 	}
 }
 
+// logsFrom scans the reflog from (name, u): what ReadLogAt and bounded lookups see.
+func logsFrom(m *Merged, name string, u uint64, label string) []LogRecord {
+	var out []LogRecord
+	it, err := m.SeekLog(name, u)
+	VerifAssert(err == nil, label)
+	if err != nil {
+		return nil
+	}
+	for {
+		var l LogRecord
+		ok, err := it.NextLog(&l)
+		VerifAssert(err == nil, label)
+		if !ok || err != nil {
+			return out
+		}
+		out = append(out, l)
+	}
+}
+
+// specLogsFrom is the suffix of the model's reflog from (name, u).
+func specLogsFrom(logs []LogRecord, name string, u uint64) []LogRecord {
+	from := &LogRecord{RefName: name, UpdateIndex: u}
+	var out []LogRecord
+	for i := range logs {
+		if !specLogLess(&logs[i], from) {
+			out = append(out, logs[i])
+		}
+	}
+	return out
+}
+
 func sameRefs(a, b []RefRecord) bool {
 	if len(a) != len(b) {
 		return false
@@ -239,6 +270,12 @@ func compactionHarness(k int, rich bool, nested bool, exactChoices int, hashChoi
 	after := stackView(cfg, readers2)
 	VerifAssert(sameRefs(scanAllRefs(after, "after-scan"), wantRefs), "compaction-changed-refs")
 	VerifAssert(sameLogs(scanAllLogs(after, "after-scan"), wantLogs), "compaction-changed-logs")
+	// lookups at a bounded update index (ReadLogAt): the same before and after, and what the model says
+	for u := uint64(0); u <= 2; u++ {
+		want := specLogsFrom(wantLogs, "a", u)
+		VerifAssert(sameLogs(logsFrom(before, "a", u, "before-seek"), want), "before-bounded-log-seek-matches-model")
+		VerifAssert(sameLogs(logsFrom(after, "a", u, "after-seek"), want), "compaction-changed-bounded-log-seek")
+	}
 	if nested && len(readers2) > 1 {
 		f2 := VerifIntRange(0, len(readers2)-1)
 		l2 := VerifIntRange(f2, len(readers2)-1)
@@ -283,7 +320,7 @@ func specExpire(logs []LogRecord, cfg *LogExpirationConfig) []LogRecord {
 }
 
 // Harness_C13_expiry: CompactAll's rewrite with an expiry configuration drops exactly the expired entries and alters no ref.
-// bounds: 2 tables (thorough 3), each one ref and 1..2 reflog entries for names a,b with symbolic time (1..255) and distinct concrete update indices 1..2k; the three limits Time, MinUpdateIndex, MaxUpdateIndex are arbitrary 64-bit values (0 = unset)
+// bounds: 2 tables (thorough 3), each one ref and 1..2 reflog entries for names a,b with symbolic time (0..255; the entries carry hashes, so time 0 does not make them deletions) and distinct concrete update indices 1..2k; the three limits Time, MinUpdateIndex, MaxUpdateIndex are arbitrary 64-bit values (0 = unset)
 // covers: done
 func Harness_C13_expiry() {
 	cfg := Config{BlockSize: 256, HashID: SHA1ID}
@@ -298,7 +335,6 @@ func Harness_C13_expiry() {
 		for i := 0; i < n; i++ {
 			l := LogRecord{RefName: string([]byte{'a' + byte(i)}), UpdateIndex: uint64(2*t + i + 1), Time: uint64(VerifU8()),
 				New: hashWith(20, byte(t), byte(i)), Old: hashWith(20, 0, 0), Message: "m\n"}
-			VerifAssume(l.Time != 0) // a non-deletion entry (time 0 with empty fields would be a deletion)
 			ts.logs = append(ts.logs, l)
 		}
 		allLogs = append(allLogs, ts.logs)
